@@ -1,6 +1,7 @@
 import Chewing.Proofs.Persist
 import Chewing.Proofs.PersistCrash
 import Chewing.Proofs.PersistEditor
+import Chewing.Proofs.PersistTerm
 import Chewing.Proofs.PersistSql
 /-!
 # C10 — User-dictionary changes are durable; the file is replaced atomically
@@ -32,7 +33,8 @@ death or a close, over any number of process lifetimes: `reopen_prefix_consisten
 guarantee itself being trusted.  "after a change has been accepted and the
 dictionary is flushed and closed normally, reopening the file shows that change, whatever the timing
 of the writer": `change_shows` (an accepted change is live) + `live_stable` (nothing else alters what
-is live) + `adopt_safe` + `durable_full` (after close the file holds what is live); in one statement,
+is live) + `adopt_safe` + `durable_full` (after close the file holds what is live) + `close_always_completes` (a normal
+close is possible after every history: no deadlock, never vacuous); in one statement,
 for the tree with both repairs: `durable_spec`.  The editor's call pattern over `Layered`'s forwarding: `editor_durable`,
 `editor_durable_spec`, `editor_crash_prefix`, `editor_atomic`, `editor_never_adopts`.
 
@@ -186,6 +188,48 @@ theorem live_stable {cfg : Cfg} {w w' : World} {a : Act} (hr : Reachable cfg w) 
     (ha : a = .flush ∨ a = .reopen ∨ a = .close ∨ a = .d ∨ a = .w ∨ a = .crash) : w'.buf.live = w.buf.live := by
   have := (step_facts (inv_reachable hr) hs).2.2
   rcases ha with h | h | h | h | h | h <;> subst h <;> exact this
+
+/-- "closed normally" is always possible, whatever happened before: from every state reached by any
+    schedule in which the dictionary is open and the process alive, `close` followed by at most 22
+    steps of the writer and of `Drop` alone (no deadlock between `Drop`'s joins and the writer) ends
+    with the dictionary closed — and the file then holds the live contents of that state.  So
+    `durable_full` is vacuous for no history. -/
+theorem close_always_completes (cfg : Cfg) (hj : cfg.joinFirst = true) (c0 : Content) (t0 : Option FileC)
+    (acts : List Act) (w : World) (h : run cfg (init c0 t0) acts = some w) (hc : w.crashed = false)
+    (hp : w.phase = .run) :
+    ∃ rest w', Passive rest ∧ rest.length ≤ 22 ∧ run cfg (init c0 t0) (acts ++ .close :: rest) = some w' ∧
+      w'.phase = .closed ∧ w'.fs .path = some (.complete w.buf.live) := by
+  obtain ⟨rest, w', hpa, hl, hr, hcl, _⟩ := close_completes cfg w hc hp
+  have hall := run_append_some h hr
+  refine ⟨rest, w', hpa, hl, hall, hcl, ?_⟩
+  have hd := durable_full cfg hj c0 t0 _ w' hall hcl
+  -- the passive steps do not change what is live
+  have hlive : ∀ (l : List Act) (x y : World), Reachable cfg x → (∀ a ∈ l, a = .close ∨ a = .w ∨ a = .d) →
+      run cfg x l = some y → y.buf.live = x.buf.live := by
+    intro l
+    induction l with
+    | nil =>
+      intro x y _ _ hxy
+      have := Option.some.inj hxy
+      subst this
+      rfl
+    | cons a as ih =>
+      intro x y hx hmem hxy
+      simp only [run] at hxy
+      cases hs : step cfg x a with
+      | none => rw [hs] at hxy; cases hxy
+      | some x1 =>
+        rw [hs] at hxy
+        have ha := hmem a (List.mem_cons_self ..)
+        have h1 : x1.buf.live = x.buf.live :=
+          live_stable hx hs (by rcases ha with h | h | h <;> simp [h])
+        rw [ih x1 y (reachable_step hx hs) (fun b hb => hmem b (List.mem_cons_of_mem _ hb)) hxy, h1]
+  have := hlive (.close :: rest) w w' ⟨c0, t0, acts, h⟩ (by
+    intro a ha
+    rcases List.mem_cons.mp ha with h | h
+    · exact Or.inl h
+    · exact Or.inr (hpa a h)) hr
+  rw [hd, this]
 
 /-- an accepted change shows in the live contents — for both variants of the tombstone rule, as
     long as the key is not tombstoned in the unrepaired one (that exception is finding F09 of
